@@ -9,6 +9,8 @@ Open Scope Z_scope.
 Section Ref.
   Variable F : list (Z * tok) -> tok.
   Variable cfg : config.
+  (** the refinement theorems are proved for caches without a sliding window *)
+  Hypothesis Hnowin : window cfg = None.
 
   (** * The reference: a function of the request alone
       [W] is the list of inputs the model has been fed for the request (positions 0..|W|-1).  Feeding one more
@@ -409,8 +411,8 @@ Section Ref.
     assert (HCW : C = ref_win (q_keep q) W0 n).
     { destruct Hw as [Hw|(_ & t & Ht & _)]; [|discriminate]. subst C. rewrite app_nil_r in Hw. exact Hw. }
     destruct (Hout Ei) as (e & E1 & E2 & E3).
-    assert (Hsample : sample_at F kv' b (q_ibatch q) = (F (enumerate 0 C), enumerate 0 C)).
-    { unfold sample_at. rewrite E1, E2, E3.
+    assert (Hsample : sample_at F cfg kv' b (q_ibatch q) = (F (enumerate 0 C), enumerate 0 C)).
+    { unfold sample_at. rewrite E1, E2, E3, (visible_c_none cfg _ _ _ Hnowin).
       replace (zlen (s_inputs s) + zlen (q_pending q) - 1) with (zlen C - 1) by (subst C; rewrite zlen_app; lia).
       rewrite (visible_all kv' (q_slot q) C Hv), sort_vis_enumerate. reflexivity. }
     rewrite Hsample. set (t := F (enumerate 0 C)).
@@ -441,7 +443,7 @@ Section Ref.
   Proof.
     unfold post_one. destruct (q_inputs q).
     2:{ intro H. injection H as <- <- <-. split; intros e []. }
-    destruct (sample_at F kv' b (q_ibatch q)) as [t vis].
+    destruct (sample_at F cfg kv' b (q_ibatch q)) as [t vis].
     destruct ((0 <=? eosTok cfg) && (t =? eosTok cfg)).
     { intro H. injection H as <- <- <-. split; intros e [<-|[<-|[]]]; cbn; auto. }
     destruct (find_stop _ _).
@@ -549,7 +551,7 @@ Section Ref.
     rewrite E. destruct (p_batch p) as [|e0 b0] eqn:Eb.
     - cbn [fst]. unfold inv2. cbn [slots seqs log nreq]. split; [|split; [exact Hlokp|split; [exact Hlidp|exact Hreqlt]]].
       pose proof (m2_nout _ _ _ _ _ H2p) as Hn. cbn in Hn. rewrite <- Hn. exact H2p.
-    - rewrite <- Eb in Hmp, H2p |- *. set (kv' := kv_forward (p_kv p) (p_batch p)).
+    - rewrite <- Eb in Hmp, H2p |- *. rewrite (kv_evict_none cfg _ _ Hnowin). set (kv' := kv_forward (p_kv p) (p_batch p)).
       destruct (post_all F cfg kv' (p_batch p) (p_slots p) (p_seqs p)) as [[[sl' qs'] ev]|] eqn:EP; [|exact (conj H2 (conj Hlok (conj Hlid Hrlt)))].
       cbn [fst]. destruct (post_all_spec F _ _ _ _ _ _ _ _ EP) as (L1 & L2 & Hfr & Hown & Hnone).
       destruct (post_all_events _ _ _ _ _ _ _ EP) as (Hevreq & Hevns & Hevown).
